@@ -69,9 +69,8 @@ def seeds(name, limit=None):
         else:
             if '_corpus' not in _cache:
                 _cache['_corpus'] = json.load(open(_CORPUS, encoding='utf-8'))
-            cand = _cache['_corpus'].get(name)
-            if cand is None:
-                cand = extract(name, m)
+            # the committed corpus (literals of the pinned tree) plus what the working tree documents now
+            cand = sorted(set(_cache['_corpus'].get(name) or ()) | set(extract(name, m)))
         acc = []
         rejected = 0
         for s in cand:
